@@ -2,6 +2,10 @@
 from . import sched as SC
 from .C02 import split, ob_ltf, ob_vec, ob_new, encoded_functions, ob_whole_plan, whole_plan_obligations
 
+
+def ob_ltf_tail(W, sched):
+    return SC.ob_ltf_tail(W, sched)
+
 PROPERTY = "C03"
 META = {
     "bounds": "(thorough tier additionally: whole plans of ltf/lpsd at N=8, Jdes=1, fs=1 executed path by path, see C02) one loop iteration of each scheduler from an ARBITRARY state fi in [fmin,fmax); N>=8 symbolic and unbounded; all configuration parameters symbolic; vectorised scheduler on a generic adjacent pair of its lookup grid with symbolic ratio rho>1",
@@ -19,6 +23,7 @@ def obligations(tier):
         split(obs, "%s/step" % sched, "ob_ltf", {"sched": sched, "part": "step"}, G, timeout=to)
         # ... and after an earlier plan in the same process (whatever a scheduler keeps at module level must not leak into the next plan)
         split(obs, "%s/step-after-prior-plan" % sched, "ob_ltf", {"sched": sched, "part": "step", "prior": True}, [G[0] + G[1]], timeout=to, fork=True, max_paths=32)
+        obs.append({"name": "%s/tail" % sched, "fn": "ob_ltf_tail", "params": {"sched": sched}, "fork": True, "max_paths": 200, "timeout": to, "weight": 6, "limit": 600})
     split(obs, "vec/step", "ob_vec", {"part": "step"}, G, timeout=to, weight=3)
     split(obs, "vec/step-after-prior-plan", "ob_vec", {"part": "step", "fork_ifs": True, "prior": True}, [G[0] + G[1]], timeout=min(to, 20), weight=4, fork=True, max_paths=48, limit=(600 if tier == "quick" else 1200))
     split(obs, "new/step", "ob_new", {"part": "step"}, G, timeout=to if tier == "thorough" else 20, weight=3)
